@@ -327,6 +327,11 @@ def _canon_subscript(base, idx):
     if isinstance(idx, ast.Constant) and isinstance(idx.value, (str, int)) and not isinstance(idx.value, bool) and isinstance(base, ast.Call) \
             and isinstance(base.func, ast.Attribute) and base.func.attr in ('search', 'match', 'fullmatch') and len(base.args) >= 1 and not base.keywords:
         return ast.Call(func=ast.Attribute(value=base, attr='group', ctx=ast.Load()), args=[idx], keywords=[])
+    if isinstance(idx, ast.Constant) and isinstance(idx.value, str) and isinstance(base, ast.Call) and isinstance(base.func, ast.Attribute) \
+            and base.func.attr == 'groupdict' and not base.args and not base.keywords and isinstance(base.func.value, ast.Call) \
+            and isinstance(base.func.value.func, ast.Attribute) and base.func.value.func.attr in ('search', 'match', 'fullmatch'):
+        # m.groupdict()['name'] is m.group('name') (a group that took no part is None either way)
+        return ast.Call(func=ast.Attribute(value=base.func.value, attr='group', ctx=ast.Load()), args=[idx], keywords=[])
     if isinstance(idx, ast.Constant) and isinstance(idx.value, int) and not isinstance(idx.value, bool) and isinstance(base, ast.Call) \
             and isinstance(base.func, ast.Attribute) and base.func.attr == 'group' and len(base.args) > 1 and not base.keywords \
             and -len(base.args) <= idx.value < len(base.args):
@@ -396,6 +401,10 @@ def const_value(n):
     return False, None
 
 
+def g0_is_none_marker(g):
+    return g is None
+
+
 class PathSim:
     def __init__(self, repo, func, inline=(), may_raise=None, unroll=2, asserts='ignore', oracle=None,
                  fork_ifexp=True, inline_depth=3, max_paths=MAX_PATHS, while_unroll=None, track_frames=False,
@@ -404,6 +413,7 @@ class PathSim:
         self.func = func
         self.expand_maps = expand_maps          # [f(x) for x in X] without a filter is expanded element by element too
         self._itab_cache = {}
+        self._blind = set()
         self.stable_attrs = frozenset(stable_attrs)     # heap paths (texts) assumed not to be written by the opaque calls of this function
         self.cg = repo.callgraph()
         self.inline = set(inline)
@@ -439,6 +449,9 @@ class PathSim:
             st.env[(0, p)] = ast.Name(id=(canon[i] if canon else p), ctx=ast.Load())
         frame = (f, 0, 0)
         results = self.exec_block(f.node.body, st, frame)
+        if self._blind:
+            raise AnalysisError('%s calls %s, generator function(s) this tree gained: lazily interleaved execution is not followed by the path interpreter'
+                                % (f.short, ', '.join(sorted(self._blind))))
         paths = []
         for s, sig in results:
             p = Path()
@@ -1690,6 +1703,11 @@ class PathSim:
                 g0 = next(iter(targets)) if len(targets) == 1 else None
                 will_inline = g0 is not None and (g0 in self.inline or (self.auto_inline and is_new_function(g0) and not any(isinstance(x, (ast.Yield, ast.YieldFrom)) for x in ast.walk(g0.node)))) \
                     and frame[2] < self.inline_depth and not g0.is_module_body
+                if not will_inline and self.auto_inline and not g0_is_none_marker(g0) and is_new_function(g0) and not g0.is_module_body \
+                        and any(isinstance(x, (ast.Yield, ast.YieldFrom)) for x in ast.walk(g0.node)):
+                    # a generator function the tree gained: its body runs lazily, interleaved with its consumer - the interpreter cannot follow
+                    # that, and treating the call as opaque would hide the decisions taken inside it
+                    self._blind.add(g0.short)
                 if not pure and not will_inline:
                     # an opaque call may change any heap location; an inlined call's effects are those of its body
                     s2.ep += 1
@@ -1892,6 +1910,16 @@ class PathSim:
             return out
         if isinstance(e, ast.Constant):
             return [(bool(e.value), st, None)]
+        if isinstance(e, ast.Call) and isinstance(e.func, ast.Name) and e.func.id == 'isinstance' and len(e.args) == 2 and not e.keywords \
+                and self.repo.lookup(frame[0].module, 'isinstance') is None and isinstance(e.args[0], ast.Name) \
+                and isinstance(e.args[1], (ast.Name, ast.Attribute)):
+            # isinstance(exc, T) on the exception a handler caught on this path: its type is known (builtin hierarchy)
+            held = st.env.get((frame[1], e.args[0].id))
+            if isinstance(held, ast.Name) and held.id.startswith('<exc ') and held.id.endswith('>'):
+                raised = held.id[5:-1]
+                tname = norm(e.args[1]).split('.')[-1]
+                if getattr(builtins, tname, None) is not None and (getattr(builtins, raised, None) is not None or tname in ('Exception', 'BaseException')):
+                    return [(exc_catches(tname, raised), st, None)]
         if isinstance(e, ast.Call) and isinstance(e.func, ast.Name) and e.func.id == 'isinstance' and len(e.args) == 2 and not e.keywords \
                 and self.repo.lookup(frame[0].module, 'isinstance') is None and not any(isinstance(x, ast.Call) for x in ast.walk(e.args[0])):
             # isinstance(x, (A, B)) - the tuple written out or a module-level constant - is isinstance(x, A) or isinstance(x, B)
@@ -2341,6 +2369,16 @@ class PathSim:
 
 def simulate(repo, func, **kw):
     return PathSim(repo, func, **kw).run()
+
+
+def unknown_atoms(paths, mapper):
+    """texts of the decisions on `paths` that `mapper` has no fact for"""
+    out = []
+    for p in paths:
+        for a, v in p.decisions:
+            if mapper(a) is None and a.text not in out:
+                out.append(a.text)
+    return out
 
 
 def check_reach(paths, target, mapper, expected, feasible=None, universe=None, ignore_raise=False, first_only=False):
